@@ -24,7 +24,11 @@ def main():
         if cnt != m.get("count", 1):
             print("SKIP %-40s pattern occurs %d times" % (m["name"], cnt)); res.append((m["name"], "skip")); continue
         try:
-            open(path, "w").write(src.replace(m["old"], m["new"]))
+            new = src.replace(m["old"], m["new"])
+            for extra in m.get("also", []):
+                assert new.count(extra["old"]) == 1, extra["old"]
+                new = new.replace(extra["old"], extra["new"])
+            open(path, "w").write(new)
             t = time.time()
             r = sh(os.path.join(VERIF, "check"), prop, "--tier", tier, cwd=VERIF)
             verdict = {0: "MISSED", 1: "caught", 2: "harness-error"}.get(r.returncode, str(r.returncode))
